@@ -43,42 +43,17 @@ def oldJ (tbl : Table) (ts : List Tok) : Json :=
   | .error e => Json.mkObj [("exc", errName e)]
   | .sig s => Json.mkObj [("sig", s)]
 
-/-- instrumentation (D11 classifier): at this state `expand` is about to collect the arguments of a call whose
-    opening parenthesis `peek_tok` sees *below* an exhausted stream that still holds tokens, so that the popping
-    `consume_tok` splices those tokens in front of the read position and consumes one of them instead -/
-def misalignedAt (tbl : Table) (s : MS) : Bool :=
-  match s.ret, s.stack with
-  | none, top :: rest =>
-    if top.eol then false else
-    match top.toks[top.pos]? with
-    | some (some t) =>
-      if t.kind == .ident && t.text != "defined" && t.expandable && !s.noExp.contains t.text then
-        match tbl.get t.text with
-        | some m =>
-          if m.args.isSome then
-            let top' : MX.Helper := { top with toks := top.toks.set top.pos none, pos := top.pos + 1 }
-            match peekDown (top' :: rest) with
-            | some p =>
-              if p.text == "(" then
-                (match consume false top' rest s.noExp with
-                 | .ok c _ _ _ => c != p || (top'.eol && !(MX.filterSome top'.toks).isEmpty)
-                 | _ => true)
-              else false
-            | none => false
-          else false
-        | none => false
-      else false
-    | _ => false
-  | _, _ => false
+/-- nesting limit of the instrumentation run: far beyond the code's `max_level`, so that "the expansion needs at least
+    `max_level` nested streams" (finding D12) is observed, but finite, so that a runaway recursion ends -/
+def scanLim : Nat := 4 * CbiVerif.Gen.maxLevel + 8
 
-/-- (iterations, peak stack depth, some call was misaligned) of a run without nesting limit -/
-def scan (tbl : Table) : Nat → MS → Nat → Nat → Bool → Nat × Nat × Bool
-  | 0, _, n, pk, mis => (n, pk, mis)
-  | f + 1, s, n, pk, mis =>
-    let mis' := mis || misalignedAt tbl s
-    match step { lim := 1000000000 } tbl s with
-    | .cont s' => scan tbl f s' (n + 1) (max pk s'.stack.length) mis'
-    | _ => (n + 1, pk, mis')
+/-- (iterations, peak stack depth) of a run with the nesting limit `scanLim` -/
+def scan (tbl : Table) : Nat → MS → Nat → Nat → Nat × Nat
+  | 0, _, n, pk => (n, pk)
+  | f + 1, s, n, pk =>
+    match step { lim := scanLim } tbl s with
+    | .cont s' => scan tbl f s' (n + 1) (max pk s'.stack.length)
+    | _ => (n + 1, pk)
 
 def handleC03 (j : Json) : Json :=
   let defs := ((j.getObjValAs? (Array String) "defs").toOption.getD #[]).toList
@@ -97,13 +72,10 @@ def handleC03 (j : Json) : Json :=
         | .error e => Json.mkObj [("exc", errName e)])
       | .error e => Json.mkObj [("exc", errName e)]
       | .fuel => Json.mkObj [("fuel", true)]
-    -- instrumentation: the same step function without nesting limit
-    let big := 1000000000
-    let (steps, peak, mis) := if ts.isEmpty then (0, 0, false) else scan tbl 300000 (initState ts) 0 1 false
-    let unl := expandWith { lim := big } tbl 300000 ts
-    let fixedSplice := expandWith { lim := CbiVerif.Gen.maxLevel, adv := true } tbl 300000 ts
+    -- instrumentation: the same step function with a nesting limit far beyond `max_level`
+    let (steps, peak) := if ts.isEmpty then (0, 0) else scan tbl 300000 (initState ts) 0 1
     Json.mkObj ([("model", xrJ r), ("eval", ev), ("spec", specJ spec),
-      ("steps", steps), ("peak", peak), ("misaligned", mis), ("unlimited", xrJ unl), ("splice_advancing", xrJ fixedSplice), ("max_level", CbiVerif.Gen.maxLevel)]
+      ("steps", steps), ("peak", peak), ("max_level", CbiVerif.Gen.maxLevel)]
       ++ (if wantOld then [("old", oldJ tbl ts)] else []))
 
 /-- one definition: `{"define": "F(x) x"}` and/or `{"cmdline": "F(x)=x"}` -/
